@@ -5,7 +5,8 @@ class Target:
     """A function (or region) of /repo that is extracted and lowered on every run."""
 
     def __init__(self, name, file, locate, rules=(), loops=None, ghost=(), index=0, count=1,
-                 common=True, region_end=None, note='', marks=None, defers=None, pre_rules=(), init_list=False, scoped=None):
+                 common=True, region_end=None, note='', marks=None, defers=None, pre_rules=(), init_list=False, scoped=None, refs=False):
+        self.refs = refs              # lower `auto& x = e;` to a pointer alias (engine.extract.lower_refs)
         self.scoped = scoped          # dict(items=[(decl_regex, ctor, dtor)], rettype=...): scoped objects declared in nested blocks
         self.name = name
         self.file = file
